@@ -12,6 +12,7 @@ import (
 	"os"
 	"strconv"
 	"strings"
+	"testing/iotest"
 	"time"
 
 	"github.com/ipfs/boxo/files"
@@ -161,13 +162,36 @@ func (n *node) statOrNil() os.FileInfo {
 	return &stat{name: n.name, mode: os.FileMode(n.mode), mtime: n.time()}
 }
 
-func build(kids []*node, st os.FileInfo) files.Directory {
+// readerFor backs a file's content with one of several io.Reader shapes allowed by the io.Reader
+// contract: kind 0 = bytes.Reader ((n, nil) then (0, EOF)); 1 = data returned together with io.EOF;
+// 2 = one byte per Read; 3 = one byte per Read, the last one together with io.EOF; 4 = half reads.
+func readerFor(kind int, data []byte) io.Reader {
+	switch kind {
+	case 1:
+		return iotest.DataErrReader(bytes.NewReader(data))
+	case 2:
+		return iotest.OneByteReader(bytes.NewReader(data))
+	case 3:
+		return iotest.DataErrReader(iotest.OneByteReader(bytes.NewReader(data)))
+	case 4:
+		return iotest.HalfReader(bytes.NewReader(data))
+	}
+	return bytes.NewReader(data)
+}
+
+// salt < 0: the plain constructors; otherwise the reader shape of each file derives from the salt
+func build(kids []*node, st os.FileInfo) files.Directory { return buildSalt(kids, st, -1) }
+
+func buildSalt(kids []*node, st os.FileInfo, salt int) files.Directory {
 	var es []files.DirEntry
-	for _, k := range kids {
+	for i, k := range kids {
 		var nd files.Node
 		switch k.kind {
 		case 'f':
-			if s := k.statOrNil(); s != nil {
+			if salt >= 0 {
+				kind := (salt + 3*i + len(k.name) + len(k.data)) % 5
+				nd = files.NewReaderStatFile(readerFor(kind, []byte(k.data)), k.statOrNil())
+			} else if s := k.statOrNil(); s != nil {
 				nd = files.NewBytesStatFile([]byte(k.data), s)
 			} else {
 				nd = files.NewBytesFile([]byte(k.data))
@@ -175,7 +199,11 @@ func build(kids []*node, st os.FileInfo) files.Directory {
 		case 'l':
 			nd = files.NewSymlinkFile(k.data, k.time())
 		default:
-			nd = build(k.kids, k.statOrNil())
+			sub := salt
+			if sub >= 0 {
+				sub = salt + i + 1
+			}
+			nd = buildSalt(k.kids, k.statOrNil(), sub)
 		}
 		es = append(es, files.FileEntry(k.name, nd))
 	}
@@ -304,6 +332,10 @@ func randKids(r *vh.Rand, depth, maxDepth int) []*node {
 			if r.Chance(1, 8) {
 				k.data = vh.Pick(r, []string{"", "\r\n--", "--boundary\r\n", "line1\nline2\r\n"})
 			}
+			if r.Chance(1, 12) {
+				// longer than one chunk of the multipart part reader
+				k.data = string(r.Bytes(r.Range(300, 1500)))
+			}
 		}
 		kids = append(kids, k)
 	}
@@ -349,6 +381,14 @@ func gen(r *vh.Rand, tier string, n int, emit func(vh.Case)) {
 			form = "0"
 		}
 		c.Ops = append(c.Ops, "ser "+form+" "+toks, "rt "+form+" "+toks)
+		if r.Chance(1, 2) {
+			// the same tree with files backed by other reader shapes (data+EOF, one byte per read, ...)
+			c.Ops = append(c.Ops, "rtr "+form+" "+strconv.Itoa(r.Intn(1000))+" "+toks)
+		}
+		if r.Chance(1, 3) {
+			// forward a parsed tree: serialise -> parse -> serialise the parsed tree -> parse
+			c.Ops = append(c.Ops, "rt2 "+form+" "+toks)
+		}
 		if r.Chance(1, 3) {
 			other := "0"
 			if form == "0" {
@@ -426,11 +466,33 @@ func exec(c vh.Case, o *vh.Out) {
 			} else {
 				o.Emit("%s", strings.Join(ps, " "))
 			}
-		case "rt":
+		case "rt", "rtr", "rt2":
 			form := f[1] == "1"
-			kids, _ := parseTree(f[2:])
-			mfr := files.NewMultiFileReader(build(kids, nil), form, false)
-			got, err := readBack(mfr, mfr.Boundary())
+			var kids []*node
+			var got []*node
+			var err error
+			switch f[0] {
+			case "rt":
+				kids, _ = parseTree(f[2:])
+				mfr := files.NewMultiFileReader(build(kids, nil), form, false)
+				got, err = readBack(mfr, mfr.Boundary())
+			case "rtr":
+				kids, _ = parseTree(f[3:])
+				mfr := files.NewMultiFileReader(buildSalt(kids, nil, vh.Atoi(f[2])), form, false)
+				got, err = readBack(mfr, mfr.Boundary())
+				o.Kind("rt-reader-shapes")
+			default:
+				kids, _ = parseTree(f[2:])
+				mfr1 := files.NewMultiFileReader(build(kids, nil), form, false)
+				var d1 files.Directory
+				d1, err = files.NewFileFromPartReader(multipart.NewReader(mfr1, mfr1.Boundary()), "multipart/form-data")
+				if err == nil {
+					// the lazily parsed tree (files are multipart.Part readers) is serialised again
+					mfr2 := files.NewMultiFileReader(d1, form, false)
+					got, err = readBack(mfr2, mfr2.Boundary())
+				}
+				o.Kind("rt-forwarded")
+			}
 			if err != nil {
 				o.Kind("rt-error")
 				o.Emit("error")
